@@ -314,7 +314,8 @@ theorem extractSni_encode (s : Loc) (ch : ClientHello) (hwf : ch.WF)
         = 42 + sl + csl + cml := by simp [hA, sl, csl, cml]; omega
     have r5 : s.range (42 + sl + csl + cml) (44 + sl + csl + cml) = .ok [E / 256, E % 256] := by
       rw [hr.range _ _ (by omega) (by omega)]
-      have := slice_mid' _ [E / 256, E % 256] (encodeExts es ++ []) 2 rfl
+      have := slice_mid' (A ++ sl :: ch.sid ++ [csl / 256, csl % 256] ++ ch.suites ++ cml :: ch.comp)
+        [E / 256, E % 256] (encodeExts es ++ []) 2 rfl
       rw [← hS5, e5] at this
       exact congrArg Except.ok this
     rw [if_neg (by omega), show 41 + sl + csl + 1 + cml + 2 - 2 = 42 + sl + csl + cml by omega,
